@@ -5,6 +5,7 @@ Comma-joined specifier sets of any length: `parse_constraint` folds `intersect` 
 import PoetryVerif.Proofs.VRangeSpecFinal
 import PoetryVerif.Proofs.VRangeWalk
 import PoetryVerif.Proofs.VRangeDiffU
+import PoetryVerif.Proofs.VRangeSharp
 
 set_option linter.unusedSimpArgs false
 set_option linter.unusedVariables false
@@ -355,5 +356,61 @@ theorem foldClauses_members : ∀ (cs : List Spec.Clause) (acc : VC),
     cases VC.intersect acc (.single (clauseMember d.op d.lit)) with
     | error e => rfl
     | ok r => exact foldClauses_members ds r (fun x hx => h x (by simp [hx]))
+
+/-- the member of a single-range clause, at a candidate that is regular for the literal: well-formed, the candidate
+is fine for it (`RC.OKat`: the derived ends — `~=`'s exclusive upper end, the wildcard's `.dev0` ends — need no
+regularity), and its range bounds carry no local label -/
+theorem clauseMember_at (op : SOp) (V : Version) (hok : ClauseOk' op V) (hop : op ≠ .ne ∧ op ≠ .neStar)
+    (v : Version) (hreg : Reg1 v V) :
+    clauseVC op V = .ok (.single (clauseMember op V)) ∧ (clauseMember op V).WF ∧ (clauseMember op V).OKat v ∧
+      (clauseMember op V).RngNoLocal := by
+  obtain ⟨hV, hloc, hprec, hfin⟩ := hok
+  have nl : op ≠ .eq → V.isLocal = false := fun h => by simp [isLocal, hloc h hop.1]
+  have oneLo : ∀ i : Bool, (RC.rng ⟨some V, none, i, false⟩).WF := fun i =>
+    ⟨by intro e he; simp [VRange.bounds] at he; subst he; exact hV, by intro m M _ hM; simp at hM⟩
+  have oneHi : ∀ j : Bool, (RC.rng ⟨none, some V, false, j⟩).WF := fun j =>
+    ⟨by intro e he; simp [VRange.bounds] at he; subst he; exact hV, by intro m M hm; simp at hm⟩
+  have okLo : ∀ i : Bool, (RC.rng ⟨some V, none, i, false⟩).OKat v := fun i =>
+    ⟨by intro m hm; simp at hm; subst hm; exact Or.inr hreg, by intro M hM; simp at hM⟩
+  have okHi : ∀ j : Bool, (RC.rng ⟨none, some V, false, j⟩).OKat v := fun j =>
+    ⟨by intro m hm; simp at hm, by intro M hM; simp at hM; subst hM; exact Or.inr hreg⟩
+  have nlLo : op ≠ .eq → ∀ i : Bool, (RC.rng ⟨some V, none, i, false⟩).RngNoLocal := fun h i => by
+    intro e he; simp [VRange.bounds] at he; subst he; exact nl h
+  have nlHi : op ≠ .eq → ∀ j : Bool, (RC.rng ⟨none, some V, false, j⟩).RngNoLocal := fun h j => by
+    intro e he; simp [VRange.bounds] at he; subst he; exact nl h
+  cases op with
+  | eq => exact ⟨rfl, hV, hreg, trivial⟩
+  | ne => exact absurd rfl hop.1
+  | lt => exact ⟨rfl, oneHi false, okHi false, nlHi (by simp) false⟩
+  | le => exact ⟨rfl, oneHi true, okHi true, nlHi (by simp) true⟩
+  | gt => exact ⟨rfl, oneLo false, okLo false, nlLo (by simp) false⟩
+  | ge => exact ⟨rfl, oneLo true, okLo true, nlLo (by simp) true⟩
+  | compat =>
+    obtain ⟨hHfin, hlt, hHwf, _, _, _, _⟩ := compat_facts V hV (hprec rfl)
+    refine ⟨rfl, ⟨?_, ?_⟩, ⟨?_, ?_⟩, ?_⟩
+    · intro e he; simp [VRange.bounds] at he; rcases he with rfl | rfl; exact hV; exact hHwf
+    · intro m M hm hM; simp at hm hM; subst hm; subst hM; exact hlt
+    · intro m hm; exact Or.inl rfl
+    · intro M hM; exact Or.inl rfl
+    · intro e he
+      simp [clauseMember, VRange.bounds] at he
+      rcases he with rfl | rfl
+      · exact nl (by simp)
+      · simp [isLocal, (final_parts hHfin).2.2.2]
+  | eqStar =>
+    have hf := hfin (Or.inl rfl)
+    have hlt := wildcard_ends_lt V hf hV
+    refine ⟨(eqStar_range V hf).1, ⟨?_, ?_⟩, ⟨?_, ?_⟩, ?_⟩
+    · intro e he; simp [VRange.bounds] at he
+      rcases he with rfl | rfl
+      · exact wf_firstDev hV
+      · exact wf_firstDev (final_nextStable_wf V hf hV)
+    · intro m M hm hM; simp at hm hM; subst hm; subst hM; exact hlt
+    · intro m hm; exact Or.inl rfl
+    · intro M hM; exact Or.inl rfl
+    · intro e he
+      simp [clauseMember, VRange.bounds] at he
+      rcases he with rfl | rfl <;> rfl
+  | neStar => exact absurd rfl hop.2
 
 end Poetry
